@@ -1,11 +1,14 @@
 """C20 — synthetic generators deliver the requested size, edge count and symmetry."""
 import sys, math
 from common import *  # noqa
+import scipy.stats, scipy.linalg  # noqa  (imported here so that maketoeplitzCIJ's in-function import never runs under the watchdog)
 
 PID = 'C20'
 MODELLED = {'makerandCIJ_dir', 'makerandCIJ_und', 'makeringlatticeCIJ', 'makeevenCIJ', 'makerandCIJdegreesfixed',
             'maketoeplitzCIJ', 'makefractalCIJ'}
-MAX_REPLAY_DRAWS = 40000     # longer toeplitz rejection runs are judged by the predicates only
+MAX_REPLAY_DRAWS = 40000     # longer toeplitz rejection runs are judged by the predicates only, except:
+GIVEUP_REPLAYS = {'quick': 1, 'thorough': 12}   # this many give-up runs (10001 rounds, N <= 5) go through the model per run
+DEGREESFIXED_GIVEUP_BOUND = 0.15   # documented-limitation level is ~7 % of graphical pairs; more than this is a new VIOLATION
 
 _SEEN = []
 
@@ -45,8 +48,22 @@ def cond_of(c):
     if c['routine'] == 'makerandCIJdegreesfixed':
         d['graphical'] = bool(c.get('graphical'))
     if c['routine'] == 'maketoeplitzCIJ':
-        d['k_feasible'] = 0 <= c['k'] <= c['n'] * (c['n'] - 1)
+        d['template_deficit_ge3'] = toeplitz_deficit(c['n'], c['k'], c['s']) >= 3.0
     return d
+
+
+def toeplitz_deficit(n, k, s):
+    """K minus the expected number of connections of one sample when the ideal template (Gaussian profile scaled to sum K,
+    computed here independently of bct) is clipped at probability 1.  A rejection sampler can only be expected to fail
+    10000 times when this is large: every give-up seen on the unmodified code has a deficit > 5, every case with a
+    deficit < 3 succeeds within a few rounds."""
+    from scipy import stats, linalg
+    if n < 2 or k <= 0:
+        return 0.0
+    pf = stats.norm.pdf(range(1, n), .5, s)
+    T = linalg.toeplitz(np.append((0,), pf))
+    T = T * (k / T.sum())
+    return float(k - np.minimum(T, 1).sum())
 
 
 def represent_vec(v, rep):
@@ -83,15 +100,15 @@ def run_case(c):
     else:
         seed = Recorder(c['seed'])
     if r in ('makerandCIJ_dir', 'makerandCIJ_und', 'makeringlatticeCIJ'):
-        st, out = call(getattr(bct, r), c['n'], c['k'], seed=seed, t=5)
+        st, out = call(getattr(bct, r), c['n'], c['k'], seed=seed, t=5, retry=10)
     elif r == 'makeevenCIJ':
-        st, out = call(bct.makeevenCIJ, c['n'], c['k'], c['sz_cl'], seed=seed, t=5)
+        st, out = call(bct.makeevenCIJ, c['n'], c['k'], c['sz_cl'], seed=seed, t=5, retry=10)
     elif r == 'maketoeplitzCIJ':
-        st, out = call(bct.maketoeplitzCIJ, c['n'], c['k'], c['s'], seed=seed, t=20)
+        st, out = call(bct.maketoeplitzCIJ, c['n'], c['k'], c['s'], seed=seed, t=5, retry=10)
     elif r == 'makefractalCIJ':
-        st, out = call(bct.makefractalCIJ, c['mx_lvl'], c['E'], c['sz_cl'], seed=seed, t=5)
+        st, out = call(bct.makefractalCIJ, c['mx_lvl'], c['E'], c['sz_cl'], seed=seed, t=5, retry=10)
     elif r == 'makerandCIJdegreesfixed':
-        st, out = call(bct.makerandCIJdegreesfixed, represent_vec(c['inv'], c.get('rep')), represent_vec(c['outv'], c.get('rep')), seed=seed, t=5)
+        st, out = call(bct.makerandCIJdegreesfixed, represent_vec(c['inv'], c.get('rep')), represent_vec(c['outv'], c.get('rep')), seed=seed, t=5, retry=10)
     res['status'] = st
     if isinstance(seed, Recorder):
         res['draws'] = seed.flat()
@@ -264,7 +281,10 @@ def main():
                       'non-trivial = distinct case in which the generator returned a non-empty matrix')
     ck.assumptions += ['K feasible: K <= N(N-1) (N(N-1)/2 undirected), K >= number of cluster cells for makeevenCIJ, N a power of two >= 4 where required',
                        'maketoeplitzCIJ (10000 rejections) and makerandCIJdegreesfixed (repair loop) may give up with BCTParamError on in-domain input: reported as violations of the '
-                       'predicates gives-up-after-10000-rejections / gives-up-on-graphical-input, which are open known findings (documented limitations)',
+                       'predicates gives-up-after-10000-rejections / gives-up-on-graphical-input; they match the open known findings only if (degreesfixed) the input is graphical and the '
+                       'as-coded model gives up on the same draws, (toeplitz) the independently computed clipped template falls short of K by >= 3 expected connections; '
+                       'any other give-up, and a degreesfixed give-up rate above 15 %, is a new VIOLATION; rates are in coverage.give_up_rates',
+                       'a call that hits the watchdog is re-tried once with 10x the budget; > 5 % timeouts or no normal return for a routine is a violation',
                        'maketoeplitzCIJ / makefractalCIJ: the float threshold matrix (scaled Gaussian profile, 1/E**ee) is observed in the real run '
                        '(through the array returned by random_sample) and given to the model as exact dyadic rationals; norm.pdf, the float scaling and the float powers are not modelled',
                        'toeplitz runs with more than %d uniform draws are judged by the predicates only (no replay)' % MAX_REPLAY_DRAWS]
@@ -281,7 +301,8 @@ def main():
     else:
         cases = gen_cases(ck.rs, ck.tier)
     results = pmap(run_case, cases)
-    lines, idx = [], []
+    lines, idx, pending = [], [], []
+    giveup_budget = GIVEUP_REPLAYS[ck.tier]
     for n_, (c, r) in enumerate(zip(cases, results)):
         rt = c['routine']
         ck.count('routine:' + rt); ck.count('status:' + r['status'])
@@ -295,13 +316,11 @@ def main():
         if c.get('malformed'):
             ck.count('malformed:' + c['malformed'])
         elif r['status'] == 'exc':
-            if rt == 'makerandCIJdegreesfixed' and exc_kind(r['exc']) == 'BCTParamError':
-                # in-domain input (graphical by construction) on which the repair loop gives up: the property promises a matrix
+            if rt in ('makerandCIJdegreesfixed', 'maketoeplitzCIJ') and exc_kind(r['exc']) == 'BCTParamError':
+                # in-domain input on which the routine gives up: the property promises a matrix.  Judged after the model has
+                # replayed the run (cond['model_gives_up']): only give-ups the as-coded model reproduces can be the known finding
                 ck.count(rt + ':gave-up')
-                ck.violation(rt, 'gives-up-on-graphical-input', {'case': c, 'exception': r['exc']}, cond)
-            elif rt == 'maketoeplitzCIJ' and exc_kind(r['exc']) == 'BCTParamError':
-                ck.count(rt + ':gave-up')
-                ck.violation(rt, 'gives-up-after-10000-rejections', {'case': c, 'exception': r['exc']}, cond)
+                pending.append((n_, cond))
             else:
                 ck.violation(rt, 'raises', {'case': c, 'exception': r['exc']}, cond)
         else:
@@ -313,7 +332,10 @@ def main():
             if not (toep and r['thr_stable']):
                 ck.corr_break('maketoeplitzCIJ template is not the Toeplitz matrix of its first row with a zero diagonal', {'case': c, 'template': r['thr']})
         if rt == 'maketoeplitzCIJ' and len(r['draws']) > MAX_REPLAY_DRAWS:
-            ck.count('toeplitz:replay-skipped-long-run'); continue
+            if r['status'] == 'exc' and giveup_budget > 0 and c['n'] <= 5:
+                giveup_budget -= 1; ck.count('toeplitz:give-up-runs-replayed')      # 10001 rounds through the model's loop
+            else:
+                ck.count('toeplitz:replay-skipped-long-run'); continue
         if rt == 'makerandCIJdegreesfixed':
             ck.count('degreesfixed:rep=%s' % (c.get('rep') or 'int64'))
         if rt == 'makerandCIJdegreesfixed' and len(r['draws']) > sum(c['inv']):
@@ -338,8 +360,32 @@ def main():
                         ck.corr_break('Synth model vs bct.' + cases[n_]['routine'], {'case': cases[n_], 'model': o[:400], 'impl': exp[:400]})
             ck.cov['traces_validated_against_impl'] = len(outs) - nd
             ck.count('correspondence_cases', len(outs)); ck.count('correspondence_disagreements', nd)
+            model_out = {n_: o for n_, o in zip(idx, outs)}
         except DriverError as e:
-            ck.corr_break('Synth driver', str(e))
+            ck.corr_break('Synth driver', str(e)); model_out = {}
+    else:
+        model_out = {}
+    # the give-ups
+    rates = {}
+    for n_, cond in pending:
+        c = cases[n_]; rt = c['routine']
+        o = model_out.get(n_)
+        cond['model_gives_up'] = (o == 'error=BCTParamError') if o is not None else 'not-replayed'
+        pred = 'gives-up-on-graphical-input' if rt == 'makerandCIJdegreesfixed' else 'gives-up-after-10000-rejections'
+        ck.violation(rt, pred, {'case': c, 'exception': results[n_].get('exc'), 'model': o}, cond)
+    if not ck.replay:
+        dom = [(c, r) for c, r in zip(cases, results) if c['routine'] == 'makerandCIJdegreesfixed' and c.get('graphical') and not c.get('malformed')]
+        gu = sum(r['status'] == 'exc' and exc_kind(r['exc']) == 'BCTParamError' for c, r in dom)
+        rates['makerandCIJdegreesfixed graphical'] = {'cases': len(dom), 'gave_up': gu, 'rate': round(gu / max(1, len(dom)), 4), 'bound': DEGREESFIXED_GIVEUP_BOUND}
+        if dom and gu > DEGREESFIXED_GIVEUP_BOUND * len(dom):
+            ck.violation('makerandCIJdegreesfixed', 'give-up-rate-above-documented-level', rates['makerandCIJdegreesfixed graphical'], {'routine': 'makerandCIJdegreesfixed'})
+        for name, sel in (('deficit>=3', True), ('deficit<3', False)):
+            dom = [(c, r) for c, r in zip(cases, results) if c['routine'] == 'maketoeplitzCIJ' and not c.get('malformed')
+                   and (toeplitz_deficit(c['n'], c['k'], c['s']) >= 3.0) == sel]
+            gu = sum(r['status'] == 'exc' and exc_kind(r['exc']) == 'BCTParamError' for c, r in dom)
+            rates['maketoeplitzCIJ ' + name] = {'cases': len(dom), 'gave_up': gu, 'rate': round(gu / max(1, len(dom)), 4)}
+        ck.cov['give_up_rates'] = rates
+        ck.dist['give_up_rates'] = rates
     ck.finish()
 
 
